@@ -138,9 +138,18 @@ bool Terminal::Impl::onRecvString(const SessionToken &st, const string &str)
     if (s == nullptr)
         return false;
 
+    size_t begin_pos = 0;
+    //! 上一段以单独的 CR 结束并已当作回车处理了：本段开头与它配对的 LF 或 NUL 属于同一个回车，不能再算一次
+    if (s->is_last_cr_taken_as_enter && !str.empty()) {
+        if (str[0] == '\n' || str[0] == '\0')
+            begin_pos = 1;
+        s->is_last_cr_taken_as_enter = false;
+    }
+
     s->key_event_scanner_.start();
     KeyEventScanner::Status status = KeyEventScanner::Status::kUnsure;
-    for (char c : str) {
+    for (size_t pos = begin_pos; pos < str.size(); ++pos) {
+        char c = str[pos];
         status = s->key_event_scanner_.next(c);
         if (status == KeyEventScanner::Status::kEnsure) {
             switch (s->key_event_scanner_.result()) {
@@ -188,6 +197,7 @@ bool Terminal::Impl::onRecvString(const SessionToken &st, const string &str)
         if (s->key_event_scanner_.stop() == KeyEventScanner::Status::kEnsure) {
             switch (s->key_event_scanner_.result()) {
                 case KeyEventScanner::Result::kEnter:
+                    s->is_last_cr_taken_as_enter = true;
                     onEnterKey(s);
                     break;
 
